@@ -97,6 +97,13 @@ CHECKS["C15"] = dict(
          "MarkovNetwork and DAG construction with concrete single operations.",
     note="Bounds: bases <=3 nodes, histories of length <=2 (3 sampled in thorough). Unbounded histories only by the informal inductive argument.",
     ref="5/C15")
+CHECKS["C17"] = dict(
+    text="DBNInference.forward_inference / backward_inference / query run on two-slice templates (one or two interface nodes, intra and inter edges, "
+         "cards 2-3) with 1-2 (HMM: all) CPDs symbolic; every returned marginal times P(evidence) is shown equal to the corresponding sum over the "
+         "unrolled network's joint, written directly from the template symbols (slice-0 CPDs once, transition CPDs T times). get_constant_bn and "
+         "initialize_initial_state are compared entry-wise by assignment with the template CPDs.",
+    note="Bounds: <=3 variables per slice, T<=3 (4 thorough), evidence in <=2 slices, positive entries. Two recorded known findings concern the "
+         "backward pass; forward inference is checked without exceptions.", ref="5/C17")
 
 NOT_APPLICABLE = {
     "C19": "statistic, dof and p-value are produced inside pandas.groupby / numpy.bincount / scipy.stats.chi2_contingency / chi2.cdf "
